@@ -60,9 +60,12 @@ class C08(PropBase):
             u = unfold.get(q); ob = obs.get(q)
             if u is None or ob is None or not isinstance(ob[0], list):
                 continue
-            typed_literal = ob[1] == '1' and ob[6] == '0'
+            v = gen.vocab_from_ctx(ctx)
+            typed_literal = ob[1] == '1' and ob[6] == '0' and ob[0][0].split('/')[-1] not in v.alias
             if c.op == 'match':
                 me = c.args[0][1]
+                if me.split('/')[-1] in v.alias:
+                    continue      # a Sid whose last value is an alias name is a search, not an entity
                 # found by q in a list containing only itself
                 exp = self.expected([me], q, u, ob, typed_literal)
                 if exp is None:
